@@ -119,3 +119,45 @@ func VerifH_C06_History() {
 		vrt.Assert(okAll, "c06.concurrent-runs-equal-sequential-result")
 	}
 }
+
+// VerifH_C06_Compile: compiling while other compiles are in flight.  Sufficient
+// conditions decided on every path: (a) the generated parser is re-entrant — the
+// program compiled for an expression is the same before and after other compiles,
+// including a failing one; (b) lock-set discipline — every package-level location of
+// the xpath packages that is written during a compile (lazy plug-in loading, function
+// table) is accessed under a common lock at every read and write.  Natively the harness
+// starts with concurrent compiles from several goroutines (meaningful under -race:
+// the very first compile of the process loads the plug-ins).
+func VerifH_C06_Compile() {
+	vrt.Freeze()
+	if !vrt.Symbolic() {
+		var wg sync.WaitGroup
+		for g := 0; g < 6; g++ {
+			wg.Add(1)
+			go func(g int) {
+				defer wg.Done()
+				for i := 0; i < 30; i++ {
+					NewExprMachine(c06Templates[(i+g)%len(c06Templates)], c02MapFn)
+				}
+			}(g)
+		}
+		wg.Wait()
+	}
+	ti := vrt.Choice("template", len(c06Templates))
+	tj := vrt.Choice("other", len(c06Templates))
+	m1, e1 := NewExprMachine(c06Templates[ti], c02MapFn)
+	m2, e2 := NewExprMachine(c06Templates[tj], c02MapFn)
+	_, e3 := NewExprMachine("a + (", c02MapFn)
+	m1b, e1b := NewExprMachine(c06Templates[ti], c02MapFn)
+	vrt.Reach("c06.compile")
+	if e1 != nil || e2 != nil || e1b != nil || e3 == nil {
+		vrt.Assert(false, "c06.compile.verdicts")
+		return
+	}
+	vrt.Assert(m1.PrintMachine() == m1b.PrintMachine(), "c06.compile.same-program-after-other-compiles")
+	vals := map[string]xpath.Datum{"a": xpath.NewLiteralDatum("ab"), "b": xpath.NewLiteralDatum("b"), "x": xpath.NewLiteralDatum("k")}
+	vrt.Assert(c06Run(m1, vals) == c06Run(m1b, vals), "c06.compile.same-result-after-other-compiles")
+	_ = m2
+	unlocked := vrt.LocksetViolations()
+	vrt.Assert(unlocked == 0, "monitor.c06.shared-state-accessed-under-a-common-lock")
+}
